@@ -12,7 +12,7 @@ Not decided: wall-time bounds of loops, Add/Mul overflow (wraps in release; the 
 alloc site which is decided), undefined behaviour inside the two unsafe blocks reached.
 """
 from ..mir import is_user_span, op_place
-from .panic_common import run_panic
+from .panic_common import run_loops, run_panic
 
 TECHNIQUE = "static analysis: reachability of panic-capable MIR constructs over the monomorphic call graph from the untrusted-input entry points, with dataflow discharges (constant/masked index, induction variable, dominating guard, infallible unwrap), dominator check for the success return and consumer check for I/O results"
 TRUSTED = ["rustc nightly MIR and trait resolution", "binrw 0.14 generated code and std internals (not inspected; their panicking preconditions are modelled by the callee list in pv/panic.py)", "spec/exceptions.json (named infeasible sites with reasons)"]
@@ -136,6 +136,9 @@ def errdisc(ctx, fn):
     return n
 
 
+LOOPS_FLOOR = 6  # natural loops counted on the pinned tree: 8; the floor leaves room for loops rewritten as iterator chains
+
+
 def run(ctx):
     prog = ctx.prog
     ctx.decided("no undischarged panic/abort/overflow/alloc construct reachable from the 12 untrusted-input entry points")
@@ -143,9 +146,11 @@ def run(ctx):
     ctx.decided("binrw up-front reservations driven by wide count fields")
     ctx.decided("ZiPatch::apply reports success only at the end-of-file chunk")
     ctx.decided("I/O and parse errors inside apply are propagated")
-    ctx.not_decided("loop termination / wall time; Add/Mul overflow asserts; soundness of the unsafe blocks reached (from_u16)")
+    ctx.decided("every reachable loop carries a structural termination argument (LOOPS)")
+    ctx.not_decided("wall time; Add/Mul overflow asserts; soundness of the unsafe blocks reached (from_u16)")
 
     sites, reach, parent, defs, sccs, und = run_panic(ctx, ENTRIES, floor_entries=12, floor_defs=300)
+    run_loops(ctx, defs, floor=LOOPS_FLOOR)
     for comp in sccs:
         ctx.ob("RECURSION", "|".join(comp)[:200], False, f"recursion reachable from untrusted input (stack depth is input-controlled): {comp}", None, None)
     if not sccs:
